@@ -184,6 +184,10 @@ fn space_handoff(caps: &mut Vec<Case>, class: &'static str) {
 fn fam_timed<T: Payload>(c: &Case, cx: &mut Ctx) -> Outcome {
     let wk = [Op::RecvTimeout(D_US), Op::SendTimeout(D_US), Op::SendOptTimeout(D_US)][c.a as usize % 3];
     let variant = c.b % 4; // 0 expires alone, 1 claimed by a peer at the deadline, 2 close at the deadline, 3 disconnect at the deadline
+    // where the expiring waiter is frozen: just before its final look at the signal (b < 4), or after it has
+    // seen "not completed, not terminated" and before it takes the lock to cancel itself (b >= 4)
+    let late = c.b % 8 >= 4;
+    let gate = if late { TIMED_BEFORE_CANCEL } else { WAIT_TIMEOUT_EXPIRED };
     let mut sc = Scn::<T>::new(c.cap, c.d & 4 == 4, c.seed);
     let recv_side = matches!(wk, Op::RecvTimeout(_));
     if !recv_side {
@@ -191,14 +195,21 @@ fn fam_timed<T: Payload>(c: &Case, cx: &mut Ctx) -> Outcome {
     }
     let side = if recv_side { Side::R } else { Side::S };
     let w_id = 0usize;
-    if variant != 0 {
-        fp::arm(w_id as u32 + 1, WAIT_TIMEOUT_EXPIRED);
+    if variant != 0 || late {
+        fp::arm(w_id as u32 + 1, gate);
     }
     let w = sc.spawn(side, c.d & 1 == 1, vec![wk]);
     assert_eq!(w, w_id);
     let name = ["expires-alone", "claimed-at-deadline", "close-at-deadline", "disconnect-at-deadline"][variant as usize];
+    let name = format!("{}{}", name, if late { "(after-last-look)" } else { "" });
     match variant {
         0 => {
+            if late {
+                if !sc.wait_arrived(w, gate) {
+                    return sc.finish(cx.lin_budget, &mut cx.obs, &mut cx.samples, &mut cx.lin_states);
+                }
+                sc.release(w, gate);
+            }
             sc.join(w);
             let r = sc.worker_result(w, 0);
             sc.expect(r == Some(Res::Timeout), "C13", || format!("{:?} with no peer must time out, got {:?}", wk, r));
@@ -216,7 +227,7 @@ fn fam_timed<T: Payload>(c: &Case, cx: &mut Ctx) -> Outcome {
             }
         }
         1 => {
-            if !sc.wait_arrived(w, WAIT_TIMEOUT_EXPIRED) {
+            if !sc.wait_arrived(w, gate) {
                 return sc.finish(cx.lin_budget, &mut cx.obs, &mut cx.samples, &mut cx.lin_states);
             }
             sc.pin_reg(w, 0);
@@ -225,15 +236,15 @@ fn fam_timed<T: Payload>(c: &Case, cx: &mut Ctx) -> Outcome {
             fp::arm(2, ppt);
             let p = sc.spawn(pside, c.d & 2 == 2, vec![pop]);
             if !sc.wait_arrived(p, ppt) {
-                sc.release(w, WAIT_TIMEOUT_EXPIRED);
+                sc.release(w, gate);
                 return sc.finish(cx.lin_budget, &mut cx.obs, &mut cx.samples, &mut cx.lin_states);
             }
             sc.pin_reg(p, 0);
             // the waiter now finds the deadline passed and itself no longer listed: it must wait for the peer
-            sc.release(w, WAIT_TIMEOUT_EXPIRED);
+            sc.release(w, gate);
             let inside_lock = !recv_side && c.cap != Some(0);
             if !inside_lock {
-                sc.wait_hits(WAIT_ENTER, 1);
+                sc.wait_hits(w, WAIT_ENTER, 1);
             } else {
                 std::thread::sleep(Duration::from_millis(2));
             }
@@ -245,23 +256,23 @@ fn fam_timed<T: Payload>(c: &Case, cx: &mut Ctx) -> Outcome {
             sc.expect(matches!(r, Some(Res::Ok) | Some(Res::Val(_))), "C13", || format!("{:?} claimed by a peer before it could cancel must end in success, got {:?}", wk, r));
         }
         2 => {
-            if !sc.wait_arrived(w, WAIT_TIMEOUT_EXPIRED) {
+            if !sc.wait_arrived(w, gate) {
                 return sc.finish(cx.lin_budget, &mut cx.obs, &mut cx.samples, &mut cx.lin_states);
             }
             sc.pin_reg(w, 0);
             sc.mexec(Op::CloseS);
-            sc.release(w, WAIT_TIMEOUT_EXPIRED);
+            sc.release(w, gate);
             sc.join(w);
             let r = sc.worker_result(w, 0);
             sc.expect(r == Some(Res::Closed), "C13", || format!("{:?} terminated by close() at its deadline must report closed, got {:?}", wk, r));
         }
         _ => {
-            if !sc.wait_arrived(w, WAIT_TIMEOUT_EXPIRED) {
+            if !sc.wait_arrived(w, gate) {
                 return sc.finish(cx.lin_budget, &mut cx.obs, &mut cx.samples, &mut cx.lin_states);
             }
             sc.pin_reg(w, 0);
             sc.mexec(if recv_side { Op::DropS } else { Op::DropR });
-            sc.release(w, WAIT_TIMEOUT_EXPIRED);
+            sc.release(w, gate);
             sc.join(w);
             let r = sc.worker_result(w, 0);
             sc.expect(matches!(r, Some(Res::Closed) | Some(Res::SendClosed) | Some(Res::RecvClosed)), "C13", || format!("{:?} whose opposite side vanished at its deadline must report an error, got {:?}", wk, r));
@@ -273,7 +284,7 @@ fn fam_timed<T: Payload>(c: &Case, cx: &mut Ctx) -> Outcome {
 fn space_timed(cs: &mut Vec<Case>, class: &'static str) {
     for cap in [Some(0), Some(1), Some(2)] {
         for a in 0..3 {
-            for b in 0..4 {
+            for b in 0..8 {
                 for d in 0..8 {
                     cs.push(Case { fam: "timed", class, cap, a, b, c: 0, d, seed: 0 });
                 }
@@ -309,7 +320,7 @@ fn fam_progress<T: Payload>(c: &Case, cx: &mut Ctx) -> Outcome {
     match phase {
         1 => {
             if parks {
-                sc.wait_hits(WAIT_BEFORE_PARK, 1);
+                sc.wait_hits(w, WAIT_BEFORE_PARK, 1);
             }
             std::thread::sleep(Duration::from_millis(3));
         }
@@ -320,7 +331,7 @@ fn fam_progress<T: Payload>(c: &Case, cx: &mut Ctx) -> Outcome {
             sc.wait_arrived(w, WAIT_BEFORE_PARK);
         }
         4 => {
-            sc.wait_hits(WAIT_BEFORE_PARK, 1);
+            sc.wait_hits(w, WAIT_BEFORE_PARK, 1);
             std::thread::sleep(Duration::from_millis(1));
             if let Some(t) = sc.worker_thread(w) {
                 for _ in 0..3 {
@@ -328,7 +339,7 @@ fn fam_progress<T: Payload>(c: &Case, cx: &mut Ctx) -> Outcome {
                     std::thread::sleep(Duration::from_micros(300));
                 }
             }
-            sc.wait_hits(WAIT_AFTER_PARK, 1);
+            sc.wait_hits(w, WAIT_AFTER_PARK, 1);
             sc.expect(!sc.worker_finished(w), "C06", || "a spurious unpark made a blocked operation return".into());
         }
         _ => {}
@@ -680,7 +691,7 @@ fn fam_frozen<T: Payload>(c: &Case, cx: &mut Ctx) -> Outcome {
             }
             if starved {
                 // let the waiter go to sleep first so the peer takes the starvation path
-                sc.wait_hits(WAIT_BEFORE_PARK, 1);
+                sc.wait_hits(w, WAIT_BEFORE_PARK, 1);
             }
             fp::arm(2, pt);
             let p = sc.spawn(if recv_waiter { Side::S } else { Side::R }, c.d & 2 == 2, vec![if recv_waiter { Op::TrySend } else { Op::TryRecv }]);
@@ -1012,8 +1023,113 @@ fn space_closedisc(cs: &mut Vec<Case>, class: &'static str) {
     }
 }
 
+// ---------------------------------------------------------------------------------------------
+// J. tight races: the waiter announces (pass counter) that it is AT a critical point of its own operation
+// and the peer acts at that very moment, both sides jittered by a few hundred ns, many times per case.
+// Nobody is held: this reaches the few-instruction windows BETWEEN failpoints (e.g. the waker's
+// decision/publish pair against the waiter's spin->park CAS, expiry against hand-off).
+fn fam_tight<T: Payload>(c: &Case, cx: &mut Ctx) -> Outcome {
+    let n: usize = if cfg!(miri) { 3 } else { 150 + 50 * (c.d as usize % 3) };
+    let (wk, pt, peer): (Op, u32, Op) = match c.a % 8 {
+        0 => (Op::Recv, WAIT_BEFORE_STARVE_CAS, Op::TrySend),
+        1 => (Op::Send, WAIT_BEFORE_STARVE_CAS, Op::TryRecv),
+        2 => (Op::RecvTimeout(300), WAIT_TIMEOUT_EXPIRED, Op::TrySend),
+        3 => (Op::SendTimeout(300), WAIT_TIMEOUT_EXPIRED, Op::TryRecv),
+        4 => (Op::SendOptTimeout(300), TIMED_BEFORE_CANCEL, Op::TryRecv),
+        5 => (Op::RecvTimeout(300), TIMED_BEFORE_CANCEL, Op::TrySend),
+        6 => (Op::Recv, WAIT_BEFORE_PARK, Op::TrySend),
+        _ => (Op::Send, WAIT_BEFORE_PARK, Op::TryRecv),
+    };
+    let recv_side = wk.is_recv();
+    let mut sc = Scn::<T>::new(c.cap, c.d & 4 == 4, c.seed);
+    sc.lin_max_events = 0;
+    main_flavour(&mut sc, c.d & 2 == 2, c.d & 2 == 2);
+    if !recv_side {
+        fill(&mut sc);
+    }
+    let par1 = kanal::verif::get_parallelism() == 1;
+    let role = 1u32;
+    fp::set_jitter(role, pt, 1 + 40 * (1 + c.b % 6));
+    let w = sc.spawn(if recv_side { Side::R } else { Side::S }, c.d & 1 == 1, vec![wk; n]);
+    let mut rng = Rng::new(c.seed ^ 77);
+    let mut last = fp::pass_count(role, pt);
+    let mut delivered = 0usize;
+    let mut spins_total = 0u64;
+    'iters: for _ in 0..n {
+        // wait for the waiter to announce itself at the point (or to be done)
+        let mut k = 0u32;
+        let mut t_wait = std::time::Instant::now();
+        loop {
+            let pcur = fp::pass_count(role, pt);
+            if pcur != last {
+                last = pcur;
+                break;
+            }
+            if sc.worker_finished(w) {
+                break 'iters;
+            }
+            k += 1;
+            if par1 {
+                // one hardware thread: spinning only steals the waiter's time slice
+                std::thread::yield_now();
+                if k < 2_000_000 && k % 64 == 0 && t_wait.elapsed() > std::time::Duration::from_secs(2) {
+                    k = 2_000_000;
+                    continue;
+                }
+            }
+            if k > 2_000_000 {
+                std::thread::yield_now();
+                // the waiter announces itself again and again as long as it has operations left; if it
+                // stays silent it is stuck inside one whose counterpart (our last call) has returned
+                if k % 4096 == 0 && t_wait.elapsed() > sc.grace {
+                    let lastop = sc.main.log.last().map(|e| e.short()).unwrap_or_default();
+                    sc.fail("C06", format!("blocked {:?} never came back although every call that could complete it has returned (last peer call: {}): lost wake-up in the spin->park hand-shake", wk, lastop));
+                    break 'iters;
+                }
+            } else if k == 2_000_000 {
+                t_wait = std::time::Instant::now();
+            }
+            std::hint::spin_loop();
+        }
+        let j = rng.below(1 + 30 * (1 + (c.b as u64 / 6) % 4));
+        spins_total += j;
+        for _ in 0..j {
+            std::hint::spin_loop();
+        }
+        sc.main.exec(peer);
+        if matches!(sc.main_result(), Res::True | Res::Val(_)) {
+            delivered += 1;
+        }
+        if !recv_side {
+            // keep the buffer full so that the next send blocks again
+            if sc.cap != Some(0) {
+                sc.main.exec(Op::TrySend);
+            }
+        }
+    }
+    // release whatever is still waiting
+    sc.mexec(if recv_side { Op::CloseS } else { Op::CloseR });
+    sc.join(w);
+    let _ = spins_total;
+    cell(cx, format!("tight/{}@{}/{}/{}", opn(&wk), POINT_NAMES[pt as usize], opn(&peer), T::NAME));
+    *cx.cells.entry(format!("tight-deliveries/{}@{}", opn(&wk), POINT_NAMES[pt as usize])).or_insert(0) += delivered as u64;
+    sc.finish(cx.lin_budget, &mut cx.obs, &mut cx.samples, &mut cx.lin_states)
+}
+fn space_tight(cs: &mut Vec<Case>, class: &'static str) {
+    for cap in [Some(0), Some(1)] {
+        for a in 0..8 {
+            for b in 0..24 {
+                for d in 0..8 {
+                    cs.push(Case { fam: "tight", class, cap, a, b, c: 0, d, seed: 0 });
+                }
+            }
+        }
+    }
+}
+
 fn run_case<T: Payload>(c: &Case, cx: &mut Ctx) -> Outcome {
     match c.fam {
+        "tight" => fam_tight::<T>(c, cx),
         "handoff" => fam_handoff::<T>(c, cx),
         "timed" => fam_timed::<T>(c, cx),
         "progress" => fam_progress::<T>(c, cx),
@@ -1027,7 +1143,7 @@ fn run_case<T: Payload>(c: &Case, cx: &mut Ctx) -> Outcome {
     }
 }
 
-const FAMILIES: [&str; 9] = ["handoff", "timed", "progress", "futdrop", "wakerace", "frozen", "drain", "fifo", "closedisc"];
+const FAMILIES: [&str; 10] = ["handoff", "timed", "progress", "futdrop", "wakerace", "frozen", "drain", "fifo", "closedisc", "tight"];
 
 fn space(fam: &str, classes: &[&'static str]) -> Vec<Case> {
     let mut v = Vec::new();
@@ -1042,6 +1158,7 @@ fn space(fam: &str, classes: &[&'static str]) -> Vec<Case> {
             "drain" => space_drain(&mut v, class),
             "fifo" => space_fifo(&mut v, class),
             "closedisc" => space_closedisc(&mut v, class),
+            "tight" => space_tight(&mut v, class),
             _ => panic!("unknown family {}", fam),
         }
     }
@@ -1181,6 +1298,22 @@ fn main() -> std::process::ExitCode {
                 }
                 Outcome::Violated(v) => {
                     let stuck_now = v.iter().any(|x| x.0 == "C06" && x.1.contains("still inside"));
+                    // a linearizability failure inside a scripted family refutes that family's own property
+                    // (the scripted order is part of the history): label it so, keeping the C03 wording
+                    let primary = match *fam {
+                        "handoff" => "C01",
+                        "timed" => "C13",
+                        "progress" => "C06",
+                        "futdrop" => "C15",
+                        "wakerace" => "C16",
+                        "frozen" => "C14",
+                        "drain" => "C19",
+                        "fifo" => "C02",
+                        "closedisc" => "C10",
+                        "tight" => "C06",
+                        _ => "C03",
+                    };
+                    let v: Vec<(String, String)> = v.into_iter().map(|(p, m)| if p == "C03" { (primary.to_string(), format!("[scripted {} scenario] {}", fam, m)) } else { (p, m) }).collect();
                     for (p, m) in &v {
                         nviol += 1;
                         *by_prop.entry(p.clone()).or_insert(0) += 1;
